@@ -127,8 +127,9 @@ class PyOperation(Spec):
         w = a["_w"]
         sem = mlir_semantics(self.cls.name)
         _, poison = sem(bits(a["lhs"].z, w), bits(a["rhs"].z, w), w)
-        # constants are stored normalised; any representative of the signless range is allowed here
-        return axioms_for(self.cls.name, w) + [A("lhs-range", in_signless(a["lhs"].z, w)), A("rhs-range", in_signless(a["rhs"].z, w)),
+        # both call sites (fold, the constant-propagation pattern) pass IntegerAttr payloads, which are stored normalised to the signed range: a sign-dependent
+        # py_operation (a right shift, a division) written for normalised operands is correct, so the precondition is the call sites' and not the wider signless range
+        return axioms_for(self.cls.name, w) + [A("lhs-range", in_signed(a["lhs"].z, w)), A("rhs-range", in_signed(a["rhs"].z, w)),
                                                 A("defined", z3.Not(poison))]
 
     def post(self, old, st, a, res):
@@ -595,8 +596,8 @@ class IntBinaryPatterns(RewriteSpec):
             l, r = z_int(args[0]), z_int(args[1])
             ex.note_contract(spec._c_py)
             n = ex.next_call()
-            ex.oblige(st, "call-pre", f"{n}:py_operation:lhs-range", in_signless(l, w), "aux")
-            ex.oblige(st, "call-pre", f"{n}:py_operation:rhs-range", in_signless(r, w), "aux")
+            ex.oblige(st, "call-pre", f"{n}:py_operation:lhs-range", in_signed(l, w), "aux")
+            ex.oblige(st, "call-pre", f"{n}:py_operation:rhs-range", in_signed(r, w), "aux")
             exp, poison = mlir_semantics(spec.cls.name)(bits(l, w), bits(r, w), w)
             out = []
             for is_none, bs in ex.split(st, bs_fresh_bool(st, "py_operation_is_none")):
